@@ -5,6 +5,7 @@ import (
 	"fmt"
 	"math/rand"
 	"sort"
+	"strconv"
 	"strings"
 	"sync"
 
@@ -416,6 +417,12 @@ func LongPad(i int) string {
 // wval: the weight of a value is the length of its part before '#', so that
 // weight is a function of the value while values can be made distinct per key.
 func wval(v string) (uint64, []byte) {
+	// an explicit weight: "<value>^<n>" is the value <value> with weight n (the same value under another weight)
+	if i := strings.LastIndexByte(v, '^'); i >= 0 {
+		if n, err := strconv.ParseUint(v[i+1:], 10, 64); err == nil {
+			return n, []byte(v[:i])
+		}
+	}
 	n := len(v)
 	if i := bytes.IndexByte([]byte(v), '#'); i >= 0 {
 		n = i
@@ -451,6 +458,7 @@ func RunWMPT(w *tr.Writer, in *tr.Interner, st *WStats, tid int, h WHist) {
 				wt, val = 0, nil
 			}
 			ev["w"] = wt
+			ev["v"] = string(val)
 			ev["res"] = Guard(func() string {
 				if err := r.t.Update(r.keys[op.K], val, wt*r.scale); err != nil {
 					if err == wmpt.ErrNotFound {
@@ -625,6 +633,11 @@ func GenWMPT(r *rand.Rand, mode string) WHist {
 		b := bases[r.Intn(len(bases))]
 		if shared {
 			return b
+		}
+		if again && len(lastVals[k]) > 0 && r.Intn(5) == 0 {
+			// the value the key had last, under another weight
+			_, prev := wval(lastVals[k][len(lastVals[k])-1])
+			return fmt.Sprintf("%s^%d", prev, 1+r.Intn(5))
 		}
 		if again && len(lastVals[k]) > 0 && r.Intn(2) == 0 {
 			return lastVals[k][r.Intn(len(lastVals[k]))]
